@@ -1,7 +1,11 @@
 package checks
 
 import (
+	"bytes"
+	"context"
 	"fmt"
+	"git.defalsify.org/vise.git/engine"
+	"git.defalsify.org/vise.git/persist"
 	"strings"
 
 	"verif/harness/app"
@@ -103,6 +107,22 @@ func runC17(c *vk.Ctx) {
 			c.Count("cases_with_reset_on_empty_input", 1)
 		}
 		c.Begin(key)
+		{
+			// histories that stay inside the session
+			ll := app.NewLongLived(a, cfg)
+			var h []string
+			for _, in := range hist {
+				o := ll.Request([]byte(in))
+				if !o.Cont || o.ExecErr != "" || o.FlushErr != "" || o.Panic != "" {
+					break
+				}
+				h = append(h, in)
+			}
+			ll.Close()
+			if len(h) >= 2 {
+				c17LongLivedPersisted(c, key, a, cfg, h, vk.Pick(c.RNG(key+"/llp"), refs))
+			}
+		}
 		for _, drv := range []string{"long", "mem", "fs"} {
 			mk := func() (c17driver, *app.Backend) {
 				if drv == "long" {
@@ -285,4 +305,64 @@ func whatDiffers(s1, s2 *app.StateSnap, c1, c2 *app.CacheSnap) string {
 		return "cache"
 	}
 	return "other"
+}
+
+// c17LongLivedPersisted: one engine with a persister serves the whole history and saves at the end (the way
+// engine.Loop runs a session). A refused input as the last request must not change what gets stored: the stored
+// snapshot equals that of the same history without the refused request.
+func c17LongLivedPersisted(c *vk.Ctx, key string, a *app.App, cfg app.Config, hist []string, rin string) {
+	run := func(withRefused bool) (*app.StateSnap, *app.CacheSnap, string, bool) {
+		b, err := app.NewBackend("mem")
+		if err != nil {
+			return nil, nil, err.Error(), false
+		}
+		defer b.Cleanup()
+		store, _ := b.Handle()
+		res := app.NewRecRes(a)
+		ctx := context.Background()
+		ok := true
+		pv, _ := vk.Guard(func() {
+			en := engine.NewEngine(cfg.Engine(), res).WithPersister(persist.NewPersister(store))
+			for _, in := range hist {
+				cont, err := en.Exec(ctx, []byte(in))
+				if err != nil {
+					ok = false
+					break
+				}
+				var buf bytes.Buffer
+				if _, err := en.Flush(ctx, &buf); err != nil || !cont {
+					ok = false
+					break
+				}
+			}
+			if ok && withRefused {
+				if _, err := en.Exec(ctx, []byte(rin)); err == nil {
+					ok = false // not refused: other legs report that
+				}
+			}
+			if err := en.Finish(ctx); err != nil {
+				ok = false
+			}
+		})
+		if pv != nil || !ok {
+			return nil, nil, "", false
+		}
+		pr := app.NewPerRequest(a, cfg, b)
+		st, ca, errs := pr.ReadStored()
+		return st, ca, errs, true
+	}
+	s0, c0, e0, ok0 := run(false)
+	if !ok0 {
+		return
+	}
+	s1, c1, e1, ok1 := run(true)
+	if !ok1 {
+		return
+	}
+	c.EvalN(1, 1)
+	c.Count("long_lived_persisted_pairs", 1)
+	if e0 != e1 || !s0.Equal(s1) || !c0.Equal(c1) {
+		c.Violate("refused-last-input-changes-what-is-saved:"+refusedClass(rin), fmt.Sprintf("one engine with a persister serves %v and saves at the end: stored %+v (load error %q); with the refused input %s as last request: stored %+v (load error %q)", printableHist(hist), s0, e0, printable(rin), s1, e1), key,
+			map[string]interface{}{"app": a.Describe(), "config": cfg, "history": hist, "refused_input": printable(rin)})
+	}
 }
